@@ -159,3 +159,25 @@ func TestJSONKeysPrograms(t *testing.T) {
 		}
 	}
 }
+
+// TestCastErrPrograms: every program of the casterr family is accepted by the analyzer, runs on both
+// back ends and shows at least three cast errors, one of them for an option that holds a boxed value.
+func TestCastErrPrograms(t *testing.T) {
+	tags := map[string]int{}
+	for seed := uint64(1); seed <= 300; seed++ {
+		b := famCastErr(fw.NewRng(seed), Poison{})
+		ob := Observe(b.Src, ObsOpts{})
+		all := ob.VMOutput + ob.VMOutcome
+		allT := ob.TreeOutput + ob.TreeOutcome
+		if !ob.Ran || strings.Count(all, "Cast error") < 3 || strings.Count(allT, "Cast error") < 3 || !strings.Contains(all, "a value of type 'option' is not compatible") {
+			t.Errorf("seed %d: ran=%v\ndiags: %s\nvm: %s\ntree: %s\n%s\n%s", seed, ob.Ran, ob.Diags, ob.VMOutcome, ob.TreeOutcome, util.Clip(ob.VMOutput, 600), b.Src["main"])
+		}
+		if strings.Contains(b.Src["main"], "println(\"end\")") && (ob.VMOutcome != "ok" || ob.TreeOutcome != "ok") {
+			t.Errorf("seed %d: every cast is caught, but vm: %s tree: %s\n%s", seed, ob.VMOutcome, ob.TreeOutcome, b.Src["main"])
+		}
+		for _, tg := range b.Tags {
+			tags[tg]++
+		}
+	}
+	t.Log(tags)
+}
